@@ -152,6 +152,12 @@ fn ascii_name() -> impl Strategy<Value = String> {
         1 => "[A-Z]{1,3}",
         2 => "[A-Za-z]{1,6}: [A-Za-z ]{1,8}",
         1 => "[A-Za-z]{1,4}: [a-z]{1,4}: [a-z]{0,4}",
+        // words that are syntax somewhere in the three text formats or in their column values
+        1 => proptest::sample::select(vec![
+            "NOT", "OMIM", "ORPHA", "DECIPHER", "OMIM:1", "ORPHA:7", "HP:0000001", "is_a", "id", "name", "true", "false", "is_obsolete: true",
+            "replaced_by: HP:0000118", "#", "#comment", "database_id", "ncbi_gene_id", "hpo_id", "-", "NA", "0", "Term", "data-version: hp/releases/2020-01-01",
+        ])
+        .prop_map(str::to_string),
     ]
 }
 
